@@ -64,7 +64,8 @@ POPS = {
     "conv1d_const": (1, lambda L, t, a: L.sg.conv1d(t[0], L.Tensor(_const_w(a, t[0].shape[1])), None, a["s"], a["p"], a["d"]),
                      lambda x, a: R.conv_nd(x[0], _const_w(a, x[0].shape[1]), None, a["s"], a["p"], a["d"], 1)),
     "conv1d_w": (2, lambda L, t, a: L.sg.conv1d(t[0], t[1], None, 1, a["p"], 1), lambda x, a: R.conv_nd(x[0], x[1], None, 1, a["p"], 1, 1)),
-    "batch_norm_train": (1, lambda L, t, a: L.sg.batch_norm(t[0], None, None, None, None, True, 0.1, a.get("eps", 1e-5)),
+    # (without running statistics the batch statistics are used whatever the training flag says: the function - and its derivative - is the same)
+    "batch_norm_train": (1, lambda L, t, a: L.sg.batch_norm(t[0], None, None, None, None, a.get("training", True), 0.1, a.get("eps", 1e-5)),
                          lambda x, a: R.batch_norm(x[0], None, None, None, None, True, 0.1, a.get("eps", 1e-5))[0]),
     # inference-mode batch norm whose running statistics are then used (and updated) by a training-mode call on other data before any backward:
     # the recorded inference node still differentiates the function that was evaluated
@@ -379,7 +380,7 @@ def generate(rng, n_instr, n_leaves, allow_kinks=False, big=False, leaves=None, 
             elif op == "batch_norm_train":
                 if r < 2 or x[0].size // x[0].shape[1] < 2 or np.min(np.var(np.moveaxis(x[0], 1, 0).reshape(x[0].shape[1], -1), axis=1)) < 1e-2:
                     continue
-                args = {"eps": float(rng.choice([1e-5, 1e-2, 0.5]))}       # forward and backward both use the caller's eps
+                args = {"eps": float(rng.choice([1e-5, 1e-2, 0.5])), "training": bool(rng.integers(2))}       # forward and backward both use the caller's eps
             elif op == "unfold2d":
                 if r != 4 or min(x[0].shape[2:]) < 2:
                     continue
